@@ -55,6 +55,64 @@ fn nth_string(a: &[u8], len: usize, mut idx: usize) -> Vec<u8> {
     v
 }
 
+/// Dense instruction windows: per byte position the candidate values; positions that carry opcode /
+/// condition / flag bits take all 256 values, operand bytes a few. The product is enumerated
+/// completely. This is what catches a changed mask or comparison constant in a filter: the
+/// alphabets above only contain bytes that the *current* code looks for.
+fn dense_spec(b: Bcj) -> Vec<Vec<u8>> {
+    let all: Vec<u8> = (0..=255u8).collect();
+    let few = |v: &[u8]| v.to_vec();
+    match b {
+        Bcj::X86 => vec![few(&[0x00, 0xE8, 0x0F, 0xFF]), few(&[0xE8, 0xE9]), few(&[0x00, 0xFF]), few(&[0x00, 0xFF, 0x7F]), few(&[0x00, 0xFF, 0x80, 0x7F]), all.clone(), few(&[0x00, 0xE8])],
+        Bcj::Arm => vec![few(&[0x00, 0xFF, 0x80]), few(&[0x00, 0xFF]), all.clone(), all.clone()],
+        Bcj::ArmThumb => vec![few(&[0x00, 0xFF, 0x80]), all.clone(), few(&[0x00, 0xFF, 0x80]), all.clone()],
+        Bcj::Arm64 => vec![few(&[0x00, 0x1F, 0xFF, 0xE0]), few(&[0x00, 0xFF, 0x80]), all.clone(), all.clone()],
+        Bcj::Ppc => vec![all.clone(), few(&[0x00, 0xFF, 0x80]), few(&[0x00, 0xFF, 0x80]), all.clone()],
+        Bcj::Sparc => vec![all.clone(), all.clone(), few(&[0x00, 0xFF]), few(&[0x00, 0xFF])],
+        Bcj::RiscV => vec![few(&[0x17, 0x97, 0xEF, 0x6F, 0x13, 0x37]), all.clone(), few(&[0x00]), all.clone(), few(&[0x13, 0x03, 0x67, 0x00, 0xFF, 0x93]), few(&[0x01, 0x81, 0x80, 0xF0]), few(&[0x00, 0x0F]), few(&[0x00, 0xFF])],
+        Bcj::Ia64 => vec![],
+    }
+}
+
+fn dense_count(spec: &[Vec<u8>]) -> usize {
+    if spec.is_empty() {
+        0
+    } else {
+        spec.iter().map(|v| v.len()).product()
+    }
+}
+
+fn dense_nth(spec: &[Vec<u8>], mut idx: usize) -> Vec<u8> {
+    let mut v = vec![0u8; spec.len()];
+    for i in (0..spec.len()).rev() {
+        v[i] = spec[i][idx % spec[i].len()];
+        idx /= spec[i].len();
+    }
+    v
+}
+
+/// IA-64: every template x every slot x every (opcode nibble, btype) pair, other slots empty or equal.
+fn ia64_dense() -> Vec<Vec<u8>> {
+    let mut v = vec![];
+    for template in 0..32u128 {
+        for slot in 0..4u32 {
+            for opcode in 0..16u128 {
+                for btype in 0..8u128 {
+                    let val: u128 = (opcode << 37) | (btype << 6) | (0x2468Au128 << 13) | (1u128 << 36);
+                    let mut bits = template;
+                    for k in 0..3u32 {
+                        if slot == 3 || slot == k {
+                            bits |= val << (5 + 41 * k);
+                        }
+                    }
+                    v.push(bits.to_le_bytes().to_vec());
+                }
+            }
+        }
+    }
+    v
+}
+
 /// IA-64 bundles: template byte x slot patterns (the 41-bit slots get opcode 5 / other, btype 0 / other).
 fn ia64_bundles() -> Vec<Vec<u8>> {
     let mut v = vec![];
@@ -96,6 +154,7 @@ pub fn run(cli: &Cli, rep: &Report) {
         shift: usize,
         first: usize,
         count: usize,
+        dense: bool,
     }
     let mut jobs: Vec<Job> = vec![];
     let mut total_strings = 0usize;
@@ -114,13 +173,34 @@ pub fn run(cli: &Cli, rep: &Report) {
         while first < n {
             let count = per_buf.min(n - first);
             // every buffer with start 0 and a rotating shift; plus the other start offsets on a rotating basis
-            jobs.push(Job { b, start: 0, shift: shifts[bi % shifts.len()], first, count });
-            jobs.push(Job { b, start: starts[1 + bi % (starts.len() - 1)], shift: shifts[(bi / 2) % shifts.len()], first, count });
+            jobs.push(Job { b, start: 0, shift: shifts[bi % shifts.len()], first, count, dense: false });
+            jobs.push(Job { b, start: starts[1 + bi % (starts.len() - 1)], shift: shifts[(bi / 2) % shifts.len()], first, count, dense: false });
             first += count;
             bi += 1;
         }
     }
-    rep.extra("packed", json!({"strings": total_strings, "buffers": jobs.len()}));
+    // dense windows
+    let ia64d = ia64_dense();
+    let mut dense_total = 0usize;
+    for b in ALL_BCJ {
+        let spec = dense_spec(b);
+        let n = if b == Bcj::Ia64 { ia64d.len() } else { dense_count(&spec) };
+        dense_total += n;
+        let len = if b == Bcj::Ia64 { 16 } else { spec.len() };
+        let al = b.alignment() as usize;
+        let unit = (len + 8).div_ceil(al.max(4)) * al.max(4);
+        let per_buf = (65536 / unit).max(1);
+        let mut first = 0;
+        let mut bi = 0usize;
+        while first < n {
+            let count = per_buf.min(n - first);
+            let start = [0u32, 4096, 0u32.wrapping_sub(16 * b.alignment())][bi % 3];
+            jobs.push(Job { b, start, shift: (bi % 5) * al, first, count, dense: true });
+            first += count;
+            bi += 1;
+        }
+    }
+    rep.extra("packed", json!({"alphabet_strings": total_strings, "dense_windows": dense_total, "buffers": jobs.len()}));
     let bundles = ia64_bundles();
     par_for_with(
         jobs.len(),
@@ -128,17 +208,24 @@ pub fn run(cli: &Cli, rep: &Report) {
         |_| (0u64, Vec::<u64>::new()),
         |st, ji| {
             let j = &jobs[ji];
-            let desc = || format!("C11|packed|{}|start{}|shift{}|first{}|count{}", j.b.name(), j.start, j.shift, j.first, j.count);
+            let desc = || format!("C11|{}|{}|start{}|shift{}|first{}|count{}", if j.dense { "dense" } else { "packed" }, j.b.name(), j.start, j.shift, j.first, j.count);
             if !cli.selected_with(desc) {
                 return;
             }
             let a = bcj_alphabet(j.b);
-            let len = arch_len(j.b, thorough);
+            let spec = dense_spec(j.b);
+            let len = if j.dense { if j.b == Bcj::Ia64 { 16 } else { spec.len() } } else { arch_len(j.b, thorough) };
             let al = j.b.alignment() as usize;
             let unit = (len + 8).div_ceil(al.max(4)) * al.max(4);
             let mut buf = vec![0x12u8; j.shift];
             for k in 0..j.count {
-                let s = if j.b == Bcj::Ia64 { bundles[j.first + k].clone() } else { nth_string(a, len, j.first + k) };
+                let s = if j.dense {
+                    if j.b == Bcj::Ia64 { ia64d[j.first + k].clone() } else { dense_nth(&spec, j.first + k) }
+                } else if j.b == Bcj::Ia64 {
+                    bundles[j.first + k].clone()
+                } else {
+                    nth_string(a, len, j.first + k)
+                };
                 let before = buf.len();
                 buf.extend_from_slice(&s);
                 buf.resize(before + unit, 0x12);
